@@ -107,11 +107,11 @@ def segmentations(rng, frames, n_random=2):
     return segs
 
 
-def case_line(cid, cfgs, l, via, segs, ups, exp, hc, gap, ids, burst=0, probe=0, rc5=0):
-    return ("%s cfg=%s l=%s via=%s segs=%s ups=%s exp=%d hc=%s gap=%d burst=%d probe=%d ids=%s rc5=%d" %
+def case_line(cid, cfgs, l, via, segs, ups, exp, hc, gap, ids, burst=0, probe=0, rc5=0, pz="-", phases="-"):
+    return ("%s cfg=%s l=%s via=%s segs=%s ups=%s exp=%d hc=%s gap=%d burst=%d probe=%d ids=%s rc5=%d pz=%s phases=%s" %
             (cid, cfgs, l, via, ",".join(gens.hx(s) for s in segs) or "-",
              ",".join("%d:%s" % (d, gens.hx(r)) for d, r in ups) or "-", exp, hc, gap, burst, probe,
-             ",".join(sorted(ids)) or "-", rc5))
+             ",".join(sorted(ids)) or "-", rc5, pz, phases))
 
 
 def build_frames(rng, ctr, k, delays="none", minimal=False, all_forward=False):
@@ -127,7 +127,7 @@ def build_frames(rng, ctr, k, delays="none", minimal=False, all_forward=False):
             elif delays == "random":
                 d = rng.choice([0, 10, 40, 90])
             elif delays == "slow":
-                d = 700
+                d = 500
             else:
                 d = 0
             ups.append((d, rep))
@@ -204,8 +204,17 @@ def stream_gen(rng, tier):
         for l in ("tcp", "gnet"):
             for via in ("sock", "feed"):
                 add("m", cfg("u", 2), l, via, [b"".join(frames)], ups, k, "0", 0, ids, burst=1, rc5=k - 2)
+    # (7) the counter recovers: a burst over the limit, then (after its responses are back) a burst within the limit
+    for rep in range(budget(tier, 1, 4)):
+        k1, k2 = rng.choice([(3, 2), (4, 2), (5, 1)])
+        frames, ups, ids = build_frames(rng, ctr, k1 + k2, delays="slow", all_forward=True)
+        ids = [x.split(":")[0] + (":5" if 2 <= i < k1 else ":0") for i, x in enumerate(ids)]
+        for l in ("tcp", "gnet"):
+            for via in ("sock", "feed"):
+                add("p", cfg("u", 2), l, via, [b"".join(frames[:k1]), b"".join(frames[k1:])], ups, k1 + k2, "0", 0, ids,
+                    burst=1, rc5=k1 - 2, pz="1:%d" % k1, phases="%d,%d" % (k1, k2))
     # the slow cases first so that they overlap with the rest
-    out.sort(key=lambda s: (not s.startswith("m"), not s.startswith("r")))
+    out.sort(key=lambda s: (not s.startswith("p"), not s.startswith("m"), not s.startswith("r")))
     return out
 
 
@@ -386,12 +395,12 @@ PROPS["C13"] = dict(
          "model after every read event) and the real tcpServer.handleConn over net.Pipe; via=sock: the real tcp and gnet "
          "listeners over loopback. Observed: the octets read back, parsed as frames; the multiset of response bodies "
          "(byte-exact against the router model), ids/rcodes, open/closed; over-limit cases use max_concurrent_queries=2 and a "
-         "700 ms upstream. streamgarbage: undecodable frames, frames longer than sent, zero-length frames, arbitrary octets, "
+         "500 ms upstream. streamgarbage: undecodable frames, frames longer than sent, zero-length frames, arbitrary octets, "
          "bit flips, then a valid query on a new connection. distinct = distinct case line; non-trivial = at least one "
          "response read back (stream) / the probe was answered (streamgarbage)",
     assumptions=["each Write/AsyncWrite call is atomic with respect to the other writers of the connection (net.Conn, gnet)",
                  "loopback delivery; handlers of forwarded queries do not finish before the reader has consumed a burst "
-                 "that arrived in one segment (700 ms upstream delay in the over-limit cases)",
+                 "that arrived in one segment (500 ms upstream delay in the over-limit cases)",
                  "zero-length frames are outside the property (C13_zero_len_note): on the wire they are only sent to the "
                  "tcp listener, whose reaction does not depend on segmentation"],
     trusted=["C13: bufio.Reader/io.ReadFull/net.Conn.Read and gnet.Conn.Next are modelled (DESIGN 6); the fake gnet.Conn of "
